@@ -140,6 +140,19 @@ def r2(repo, run):
             run.ok('C20.R2', where, w.text(), 'exempt: ' + EXEMPT[key] + ('' if moved is None else ' (private helper reached only from %s)' % moved))
         else:
             run.violation('C20.R2', w.fi, w.text(), 'write to process-shared state (%s %s) on a path that builds can reach: two threads building at the same time read / overwrite each other\'s value. Not a thread-local slot and not in the exemption table' % w.root, node=w.node)
+    # a ContextDecorator instance is created once per decorated function and re-entered by every call and every thread:
+    # per-call state must not be kept on it
+    for cname, ci in repo.classes.items():
+        if not any(b.split('.')[-1] in ('ContextDecorator', 'AsyncContextDecorator') for b in ci.base_exprs):
+            continue
+        for mname in ('__enter__', '__exit__', '__aenter__', '__aexit__', '__call__'):
+            m = ci.methods.get(mname)
+            if m is None:
+                continue
+            for nd in ast.walk(m.node):
+                if isinstance(nd, ast.Attribute) and isinstance(nd.ctx, ast.Store) and isinstance(nd.value, ast.Name) and nd.value.id == 'self':
+                    run.violation('C20.R2', m, 'self.%s = ... in %s.%s' % (nd.attr, cname, mname), 'per-call state is stored on a ContextDecorator instance, which is shared by all calls of the decorated function in all threads and at all nesting levels: concurrent / nested entries overwrite each other\'s %s' % nd.attr, node=nd)
+                    break
     for cname, attr, muts in shared.class_mutables_via_self(repo):
         fi_, node_ = muts[0]
         run.violation('C20.R2', fi_, '%s.%s mutated through self.%s' % (cname, attr, attr), 'per-instance state lives in a class-level mutable object that is never assigned on the instance: it is shared by all instances and threads (%d mutation sites)' % len(muts), node=node_)
